@@ -1,8 +1,12 @@
 (* C21/Gen.v — REGENERATED on every run by tools/props/c21.py:regen from
      /repo/src/c/_cffi_backend.c   (direct_from_buffer: every `goto errorN`, whether it is taken after
                                     PyObject_GetBuffer succeeded, and whether label errorN passes
-                                    PyBuffer_Release(view))
-   Do not edit: this committed copy is the snapshot used when the translator fails. *)
+                                    PyBuffer_Release(view); direct_newp: the DECREF on the failure path;
+                                    and, by tools/props/c21_regen.py, the Py_VISIT lists of the three
+                                    tp_traverse functions, the statement order of cdatagcp_finalize,
+                                    gcp_finalize, cdatagcp_dealloc, the None branch of b_gcp,
+                                    explicit_release_case and the switch of cdata_exit)
+   Do not edit: this committed copy is the snapshot of the unchanged tree. *)
 From Coq Require Import List.
 Import ListNotations.
 
@@ -14,3 +18,35 @@ Definition gen_frombuf_paths : list (nat * bool * bool) :=
 (* direct_newp: the error path after a failed initializer conversion releases the freshly made
    cdata (`if (convert_from_object(...) < 0) { Py_DECREF(cd); return NULL; }`) *)
 Definition gen_newp_fail_decref : bool := true.
+
+(* ---- GC edges, finalize order, release table (tools/props/c21_regen.py) *)
+Inductive pytype := POwning | POwningGC | PFromBuf | PGcp.
+Inductive ctguard := GAny | GPtrOrArray | GHandle | GCallback.
+Inductive gfield := FStructobj | FClosureArgs | FViewObj | FDestructor | FOrigobj.
+Inductive exit_action := XNothing | XFinalizeStructobjIfGcp | XBufferRelease | XFinalizeSelf.
+
+(* tp_traverse: (Python type, ctype test guarding the visits, fields given to Py_VISIT in order) from
+   cdataowninggc_traverse, cdatafrombuf_traverse, cdatagcp_traverse and the tp_traverse slots *)
+Definition gen_traverse : list (pytype * ctguard * list gfield) :=
+  [(POwningGC, GHandle, [FStructobj]); (POwningGC, GCallback, [FClosureArgs]); (PFromBuf, GAny, [FViewObj]); (PGcp, GAny, [FDestructor; FOrigobj])].
+
+(* direct_newp stores the only reference to the struct object into the pointer object, and
+   cdataowning_dealloc drops it under CT_IS_PTR_TO_OWNED (CDataOwning_Type is not a GC type) *)
+Definition gen_structptr_owns : bool := true.
+
+(* cdatagcp_finalize: fields set to NULL; all of them before gcp_finalize(destructor, origobj) is called *)
+Definition gen_finalize_cleared : list gfield := [FDestructor; FOrigobj].
+Definition gen_finalize_clears_first : bool := true.
+(* gcp_finalize: call sites of the destructor, all under `if (destructor != NULL)` *)
+Definition gen_gcp_finalize_calls : nat := 1.
+(* cdatagcp_dealloc passes the current fields to gcp_finalize *)
+Definition gen_dealloc_finalizes : bool := true.
+(* b_gcp, destructor == None: TypeError unless CDataGCP_Type, then Py_CLEAR of these fields *)
+Definition gen_gcnone_clears : list gfield := [FDestructor].
+
+(* explicit_release_case: (Python type, ctype guard, case); anything else: ValueError *)
+Definition gen_release_case : list (pytype * ctguard * nat) :=
+  [(POwning, GPtrOrArray, 0); (PFromBuf, GAny, 1); (PGcp, GAny, 2)].
+(* cdata_exit (= ffi.release and with-exit): case -> action *)
+Definition gen_exit_table : list (nat * exit_action) :=
+  [(0, XFinalizeStructobjIfGcp); (1, XBufferRelease); (2, XFinalizeSelf)].
